@@ -27,7 +27,7 @@ RouteFails(c, o) ==
   \cup (IF o.idempotent THEN {} ELSE {"Idempotent:" \o o.route})
 FailsOf(r) == UNION {RouteFails(r.case, r.obs[j]) : j \in DOMAIN r.obs}
 Judge(r) == LET f == FailsOf(r) IN IF f = {} THEN TRUE ELSE PrintT(ToJson([i |-> r.i, fails |-> f]))
-TInit == l = 1 /\ sd = [fields |-> {}, policy |-> "NONE", inst |-> <<>>, unknown |-> FALSE, sp |-> DefSp, done |-> TRUE]
+TInit == l = 1 /\ sd = [fields |-> {}, policy |-> "NONE", tgt |-> "field", inst |-> <<>>, unknown |-> FALSE, sp |-> DefSp, done |-> TRUE]
 TNext == l <= Len(Trace) /\ Judge(Trace[l]) /\ l' = l + 1 /\ UNCHANGED sd
 TAccepted == TLCGet("stats").diameter - 1 = Len(Trace)
 =============================================================================
